@@ -124,7 +124,7 @@ func crashFingerprint(stderr string) (string, string) {
 }
 
 func workerBin(race bool) string {
-	if race {
+	if race && os.Getenv("VERIF_RACE") != "0" {
 		return filepath.Join(binDir, "worker-race.test")
 	}
 	return filepath.Join(binDir, "worker.test")
@@ -190,7 +190,7 @@ func runJob(scratch string, id int, job worker.Job, race bool, perRunTimeout tim
 		case hung:
 			return nil, fmt.Errorf("worker %d: run %d exceeded the per-run wall-clock cap of %v (watchdog)", id, idx, perRunTimeout)
 		case strings.Contains(tail, "WARNING: DATA RACE"):
-			v = &kernel.Violation{Property: job.Property, Oracle: job.Property + ".no-race", Fingerprint: raceFingerprint(tail), Message: lastLines(raceBlock(tail), 40)}
+			v = &kernel.Violation{Property: job.Property, Oracle: job.Property + ".no-race", Fingerprint: raceFingerprint(tail), Message: firstLines(raceBlock(tail), 45)}
 		default:
 			line, fp := crashFingerprint(tail)
 			if fp == "" {
